@@ -18,6 +18,9 @@ type frame struct {
 	defers []deferred
 	caller *frame
 	pos    token.Pos
+	// Go panic in flight while this frame's deferred calls run (sequential mode only)
+	panicking *pathEnd
+	deferCall bool // this frame is a deferred call made by runDefers
 }
 
 type deferred struct {
@@ -30,6 +33,9 @@ type deferred struct {
 type pathEnd struct {
 	kind string // "done", "infeasible", "panic", "stop"
 	msg  string
+	// a Go run-time or explicit panic (recoverable by a deferred call), as opposed to a fatal error such as a deadlock
+	recoverable bool
+	val         Value
 }
 
 func (e *Engine) posStr(p token.Pos) string {
@@ -53,11 +59,13 @@ func (e *Engine) stack(fr *frame) string {
 }
 
 func (e *Engine) progPanicAt(fr *frame, msg string) {
-	panic(pathEnd{kind: "panic", msg: msg + " at " + e.stack(fr)})
+	panic(pathEnd{kind: "panic", msg: msg + " at " + e.stack(fr), recoverable: true})
 }
 
 // callFunc executes fn (or an intercept) with args and returns its result value.
 func (e *Engine) callFunc(caller *frame, fv *FuncVal, args []Value) Value {
+	isDefer := e.nextIsDeferCall
+	e.nextIsDeferCall = false
 	if fv == nil {
 		e.progPanicAt(caller, "call of nil func")
 	}
@@ -83,10 +91,54 @@ func (e *Engine) callFunc(caller *frame, fv *FuncVal, args []Value) Value {
 	}
 	defer func() { e.depth-- }()
 	e.touchFn(fn)
-	fr := &frame{fn: fn, env: make(map[ssa.Value]Value, 32), bind: fv.Bind, caller: caller}
+	fr := &frame{fn: fn, env: make(map[ssa.Value]Value, 32), bind: fv.Bind, caller: caller, deferCall: isDefer}
 	for i, p := range fn.Params {
 		fr.env[p] = args[i]
 	}
+	return e.runUnwinding(fr)
+}
+
+// runUnwinding gives a Go panic raised inside fr (or below it) the language semantics: the frame's deferred
+// calls run, one of them may recover() - then the function returns its named results through the SSA
+// Recover block - otherwise the panic continues in the caller. Sequential mode only; in event mode and for
+// fatal errors (deadlock) the path ends as before.
+func (e *Engine) runUnwinding(fr *frame) (ret Value) {
+	if e.ev != nil {
+		return e.run(fr)
+	}
+	defer func() {
+		r := recover()
+		if r == nil {
+			return
+		}
+		pe, ok := r.(pathEnd)
+		if !ok || pe.kind != "panic" || !pe.recoverable || len(fr.defers) == 0 {
+			panic(r)
+		}
+		fr.panicking = &pe
+		e.runDefers(fr) // a deferred call that panics itself replaces the panic (Go semantics) by propagating from here
+		if fr.panicking != nil {
+			panic(*fr.panicking)
+		}
+		// recovered
+		if fr.fn.Recover != nil {
+			ret = e.runFrom(fr, fr.fn.Recover)
+			return
+		}
+		res := fr.fn.Signature.Results()
+		switch res.Len() {
+		case 0:
+			ret = nil
+		case 1:
+			ret = e.zero(res.At(0).Type())
+		default:
+			tv := make(TupleVal, res.Len())
+			for i := range tv {
+				tv[i] = e.zero(res.At(i).Type())
+			}
+			ret = tv
+		}
+	}()
 	return e.run(fr)
 }
 
@@ -112,8 +164,9 @@ func (e *Engine) allowedPkg(fn *ssa.Function) bool {
 	return false
 }
 
-func (e *Engine) run(fr *frame) Value {
-	b := fr.fn.Blocks[0]
+func (e *Engine) run(fr *frame) Value { return e.runFrom(fr, fr.fn.Blocks[0]) }
+
+func (e *Engine) runFrom(fr *frame, b *ssa.BasicBlock) Value {
 	var prev *ssa.BasicBlock
 	for {
 		e.touchBlock(b)
@@ -159,7 +212,7 @@ func (e *Engine) run(fr *frame) Value {
 				e.runDefers(fr)
 			case *ssa.Panic:
 				v := e.get(fr, in.X)
-				e.progPanicAt(fr, "panic: "+e.describe(v))
+				panic(pathEnd{kind: "panic", msg: "panic: " + e.describe(v) + " at " + e.stack(fr), recoverable: true, val: v})
 			case *ssa.Store:
 				p := e.get(fr, in.Addr).(PtrVal)
 				if p.C == nil {
@@ -200,7 +253,9 @@ func (e *Engine) runDefers(fr *frame) {
 		if d.inv != nil {
 			e.invoke(fr, d.recv, d.inv.Method, d.args)
 		} else {
+			e.nextIsDeferCall = true
 			e.callFunc(fr, d.fv, d.args)
+			e.nextIsDeferCall = false
 		}
 	}
 }
@@ -1051,7 +1106,29 @@ func (e *Engine) builtin(fr *frame, name string, args []Value, c *ssa.CallCommon
 		e.chanClose(fr, ch)
 		return nil
 	case "panic":
-		e.progPanicAt(fr, "panic: "+e.describe(args[0]))
+		func() {
+			defer func() {
+				if r := recover(); r != nil {
+					if pe, ok := r.(pathEnd); ok {
+						pe.val = args[0]
+						panic(pe)
+					}
+					panic(r)
+				}
+			}()
+			e.progPanicAt(fr, "panic: "+e.describe(args[0]))
+		}()
+	case "recover":
+		// effective only when called directly by a deferred function while its caller is panicking
+		if fr.deferCall && fr.caller != nil && fr.caller.panicking != nil {
+			pe := fr.caller.panicking
+			fr.caller.panicking = nil
+			if iv, ok := pe.val.(IfaceVal); ok && iv.T != nil {
+				return iv
+			}
+			return IfaceVal{T: types.Typ[types.String], V: e.strConst(pe.msg)}
+		}
+		return IfaceVal{}
 	case "print", "println":
 		return nil
 	case "ssa:wrapnilchk":
